@@ -2830,11 +2830,11 @@ class TextNode(_ChildLessNode, NodeBase, _StringMixin):  # type: ignore
 
         if self._position is DATA:
             assert isinstance(self._bound_to, _Element)
-            self._bound_to.text = text or None
+            self._bound_to.text = text
 
         elif self._position is TAIL:
             assert isinstance(self._bound_to, _Element)
-            self._bound_to.tail = text or None
+            self._bound_to.tail = text
 
         elif self._position in (APPENDED, DETACHED):
             assert self._bound_to is None or isinstance(self._bound_to, TextNode)
